@@ -172,6 +172,7 @@ func (vc *VC) define(prefix string, t Term) Term {
 	}
 	n := vc.fresh(prefix)
 	vc.cmd(fmt.Sprintf("(define-fun %s () %s %s)", n, t.Sort, t.S))
+	registerCtor(n, t.S)
 	return Term{n, t.Sort}
 }
 
@@ -410,8 +411,7 @@ func (vc *VC) allocObj(s *State, t types.Type) Term {
 	sort.Strings(ks)
 	for _, k := range ks {
 		h := vc.heap(s, k)
-		z := fmt.Sprintf("((as const %s) %s)", ArraySort(SInt, kindSort(k)), kindZero(k).S)
-		vc.setHeap(s, k, Store(h, obj, Term{z, ArraySort(SInt, kindSort(k))}))
+		vc.setHeap(s, k, Store(h, obj, vc.zeroArray(k)))
 	}
 	return obj
 }
